@@ -179,6 +179,8 @@ func c06run(out *evid.Out, f *evid.Flags, run int) {
 		}
 	}
 	// chains
+	var nPanicEntries int64
+	defer func() { out.Count("panic_entry_events", nPanicEntries) }()
 	x := &gen.Exec{}
 	chains := make([][]chain6, G)
 	for w := 0; w < G; w++ {
@@ -199,6 +201,12 @@ func c06run(out *evid.Out, f *evid.Flags, run int) {
 				ev.Entry, ev.Level = "Error", zerolog.ErrorLevel
 			case 3:
 				ev.Entry, ev.Level, ev.Err = "Err", zerolog.ErrorLevel, errors.New("e6")
+			case 4:
+				// Logger.Panic(): written like any other event, then the call panics with the message (recovered in emit);
+				// the event carries a completion callback while other goroutines take events from the same pool
+				if cr.Chance(1, 2) {
+					ev.Entry, ev.Level = "Panic", zerolog.PanicLevel
+				}
 			}
 			stack := false
 			for j, n := 0, cr.Intn(6); j < n; j++ {
@@ -264,6 +272,15 @@ func c06run(out *evid.Out, f *evid.Flags, run int) {
 		return base.With().Int("worker", w).Logger().Hook(addHook6{"h2"}).Level(zerolog.InfoLevel)
 	}
 	emit := func(l *zerolog.Logger, c *chain6) {
+		if c.ev.Entry == "Panic" {
+			atomic.AddInt64(&nPanicEntries, 1)
+			defer func() {
+				r := recover()
+				if _, ok := r.(string); !ok {
+					viol("panic-entry", fmt.Sprintf("chain %s: Logger.Panic()...%s ended with recover() = %v (%T), specified: panics with the message string", c.id, c.ev.Fin, r, r))
+				}
+			}()
+		}
 		e := gen.StartEvent(l, &c.ev).Str(idKey, c.id)
 		for _, op := range c.ev.Ops {
 			e = x.ApplyEvent(e, op)
